@@ -233,6 +233,18 @@ CLAIMED: dict[str, tuple[str, str, str, str, str]] = {
         "is closed and that on_disconnection ran iff on_connection had completed.",
         "Trusted: TLC; in-memory listeners; the independent TLS peer. KeyboardInterrupt/SystemExit and task cancellation are not client failures.",
     ),
+    "C18": (
+        "model_checking",
+        "TLA+ spec Lifecycle (standalone server: locks, events, threads portal, asynchronous set-up guard) model-checked by TLC (deadlock, termination, "
+        "CloseCloses, ShutdownStops, AtMostOneServing); histories of the real asynchronous TCP/UDP servers (seeded interleavings of 3 actors x 1-3 calls "
+        "in virtual time) and of the real standalone server (threads, scripted schedules) validated by TLC against the lifecycle laws of LifecycleTrace",
+        "DESIGN.md section 7 (C18)",
+        "TLC explores every interleaving of two serving threads, a closer and a stopper on the standalone model (it exhibits F5 on the model as "
+        "written and proves the waiting variant); the laws (one serving call at a time, refusals exactly when due, shutdown returns only when "
+        "serving stopped, no listener after a returned close, every call returns) are decided by TLC on every recorded history.",
+        "Trusted: TLC; in-memory listeners; real-thread schedules rely on short sleeps to land in the intended windows. Known finding F5 is listed "
+        "in known_findings.json.",
+    ),
 }
 
 NOT_YET = "check not built yet in this revision of /verif (planned: see DESIGN.md section 0); not claimed until its check exists"
